@@ -327,7 +327,7 @@ func runC16(c *Ctx) {
 		}
 		return ""
 	}}
-	dropAtom := atom{Form: linSym(recv + "." + chanceField).add(linSym("draw"), -1)} // chance - draw > 0
+	dropAtom := atom{Form: linSym(recv+"."+chanceField).add(linSym("draw"), -1)} // chance - draw > 0
 	cex := dr.compareWithSpec(func(val func(a atom) bool) string {
 		if val(dropAtom) {
 			return "drop"
@@ -414,7 +414,9 @@ func runC15(c *Ctx) {
 		return
 	}
 	cg := p.CG()
-	fns := cg.reachableFrom([]*ssa.Function{run}, func(e cgEdge) bool { return pkgOf(e.To) == "vnet" && e.To.Signature.Recv() != nil && typeName(e.To.Signature.Recv().Type()) == T })
+	fns := cg.reachableFrom([]*ssa.Function{run}, func(e cgEdge) bool {
+		return pkgOf(e.To) == "vnet" && e.To.Signature.Recv() != nil && typeName(e.To.Signature.Recv().Type()) == T
+	})
 
 	// R1 every store to tokens is capped or a decrease
 	o := c.Obl("R1", T+"."+tokens, "every store to the token count is min(float64(maxBurst), ...) or subtracts the size of the forwarded datagram; the refill executes the capped store on every path (idle accumulation and a lowered burst are clipped)", 2)
@@ -865,7 +867,9 @@ func runC14(c *Ctx) {
 		// drained receive only when Stop returned false
 		for _, cm := range commsOfU(run) {
 			if cm.Sel == nil && cm.Dir == types.RecvOnly && strings.HasPrefix(chanRole(cm.Chan), "timer.C") {
-				if !hasFact(cm.Instr, func(ft fact) bool { return boolFact(ft, func(v ssa.Value) bool { return v == ssa.Value(stp.(*ssa.Call)) }, false) }) {
+				if !hasFact(cm.Instr, func(ft fact) bool {
+					return boolFact(ft, func(v ssa.Value) bool { return v == ssa.Value(stp.(*ssa.Call)) }, false)
+				}) {
 					o.Fail(cm.Instr.Pos(), "the timer channel is drained although Stop() may have succeeded (blocks forever)")
 				}
 			}
